@@ -285,6 +285,10 @@ func (smf *SMFailed) UnmarshalXML(d *xml.Decoder, start xml.StartElement) error 
 				rcf := RemoteConnectionFailed{}
 				err = d.DecodeElement(&rcf, &tt)
 				smf.StreamErrorGroup = &rcf
+			case "reset":
+				rst := Reset{}
+				err = d.DecodeElement(&rst, &tt)
+				smf.StreamErrorGroup = &rst
 			case "resource-constraint":
 				rc := ResourceConstraint{}
 				err = d.DecodeElement(&rc, &tt)
